@@ -164,6 +164,10 @@ def p_c18(facts, rep, tier):
         "the only recursive cycle (verify_range) passes a strictly larger start_depth on each call under a dominating error-returning bound (T2); "
         "no Iterator method is driven on an iterator of infinite type (T3). The adequacy of guards and reviewed reasons rests on reading."
     )
+    facts, inlined = panicfree.with_new_helpers_inlined(facts)
+    if inlined:
+        rep.extra["inlined_new_helpers"] = {k.split("::", 1)[1]: sorted({x.split("::", 1)[1] for x in v}) for k, v in sorted(inlined.items())}
+        rep.notes.append("functions the reviewed tree did not have were spliced into their callers: %s" % rep.extra["inlined_new_helpers"])
     reach, inv, counts = panicfree.run(facts, rep)
     import termination
 
@@ -340,7 +344,7 @@ def p_c03(facts, rep, tier):
         "starts (O1); hash-table writes, WAL truncation, rollback-log unlink/truncation and the index swap can start only after Meta::write "
         "returned Ok (O3); Meta::write is one page write at offset 0 followed by a checked fsync, called only from Sync::sync and create (O4); "
         "WAL redo in recover is confined to the branch where the WAL's sequence number equals the meta page's, which derives from Meta::read (O7); "
-        "the WAL is tagged with the very value stored in the meta page and the in-memory counter advances only after the swap (O8); in the sync writer and in the WAL redo every mutation of the occupancy map is followed on every path by queueing that map page for writeout (O12); every change the post-meta hash-table writeout will make is first recorded in this sync's WAL blob: set_tombstone is paired with a Clear entry and set_full / a queued data page with an Update entry for the same bucket, between reset(sync_seqn) and finalize() (O13). "
+        "the WAL is tagged with the very value stored in the meta page and the in-memory counter advances only after the swap (O8); in the sync writer and in the WAL redo every mutation of the occupancy map is followed on every path by queueing that map page for writeout (O12); every change the post-meta hash-table writeout will make is first recorded in this sync's WAL blob: set_tombstone is paired with a Clear entry and set_full / a queued data page with an Update entry for the same bucket, between reset(sync_seqn) and finalize() (O13); the redo loop of recover dispatches on the entry kind and no arm reaches the next iteration without re-applying its entry - Clear through set_tombstone, Update through a write of the hash-table file (O14). "
         "Decides the before/after-the-barrier structure for all histories and crash points; data-level recovery correctness is not decided."
     )
     ctx = sync_ctx(facts)
@@ -351,6 +355,7 @@ def p_c03(facts, rep, tier):
     syncorder.o8(ctx, rep)
     syncorder.o12(ctx, rep)
     syncorder.o13(ctx, rep)
+    syncorder.o14(ctx, rep)
     # the old state survives a crash before the switch-over only if no page it references is rewritten: the copy-on-write
     # rules of C17 that are about WHICH pages are written are part of C03 as well
     syncorder.w2(ctx, rep)
